@@ -121,6 +121,16 @@ def run_case(case, rng):
         prob = QuickMDP(next_state_dist=lambda s, a: mk(next_state(s, a)), initial_state_dist=mk(start),
                         reward=reward, actions=lambda s: actions_of[s], is_absorbing=is_abs)
 
+    if pres != "dsp" and rng.random() < 0.3:
+        # convert this problem AND an unrelated one up front (as `[from_mdp(m) for m in mdps]` would), plan later
+        n2, a2, e2, g2, s2 = gen_graph(rng, 5)
+        other = QuickMDP(next_state=lambda s, a: e2[(s, a)][0], initial_state=s2, reward=lambda s, a, ns: -e2[(s, a)][1],
+                         actions=lambda s: tuple(a for a in a2 if (s, a) in e2), is_absorbing=lambda s: s in g2)
+        conv = case.call("from_mdp", DeterministicShortestPathProblem.from_mdp, prob)
+        case.call("from_mdp(other)", DeterministicShortestPathProblem.from_mdp, other)
+        if conv is not case.FAIL:
+            prob = conv
+            case.count("converted_up_front")
     dist = dijkstra_to_goal(nodes, edges, goals)
     level, reach = bfs_levels(nodes, edges, goals, start)
     M = 1 + sum(c for (_, c) in edges.values())
